@@ -226,6 +226,7 @@ pub fn run(ctx: &Ctx) -> (Spec, Report) {
             let lang = ALL_LANGS[rng.below(6)];
             let prog = gen_program(rng, &p, Some(lang));
             let src = prog.render(rng, &RenderOpts { vary: true, prelude: false, strip_typeshare: false });
+            let src = if rng.chance(1, 4) { crate::model::relayout(&src, rng.range(1, 4)) } else { src };
             let generic_enum = prog.items.iter().any(|i| matches!(i.kind, Kind::Enum { .. }) && !i.generics.is_empty());
             let generic_alias = prog.items.iter().any(|i| matches!(i.kind, Kind::Alias(_) | Kind::Newtype(_)) && !i.generics.is_empty());
             let langs: Vec<(LangId, LangCfg)> = ALL_LANGS
